@@ -211,6 +211,10 @@ def steps_for(rng, d, n, extra=()):
 
 
 def gen_sw(rng, i):
+    return with_zone(rng, gen_sw_plain(rng, i))
+
+
+def gen_sw_plain(rng, i):
     w, n = rng.choice([(60 * S, 60), (60 * S, 60), (HOUR, 60), (S, 10), (100 * MS, 7), (5 * MS, 60), (60 * S, 0),
                        (60 * S, -3), (10 * S, 1), (S, 3), (7 * S, 4), (90 * S, 60)])
     d, nn = geom(w, n)
@@ -246,6 +250,45 @@ def gen_sw(rng, i):
     return {"w": w, "n": n, "lim": lim, "t0": t0, "ops": ops}
 
 
+# locations carried by the controlled clock: absent = time.Local (the harness sets it to UTC-11),
+# UTC, UTC+14, UTC-11, UTC+5:45
+ZONES = [None, None, 0, 14 * 3600, -11 * 3600, 5 * 3600 + 45 * 60]
+
+
+def zone_offset(z):
+    return -11 * 3600 if z is None else z
+
+
+def with_zone(rng, c, z="pick"):
+    z = rng.choice(ZONES) if z == "pick" else z
+    if z is not None:
+        c["zone"] = z
+    return c
+
+
+def next_local_midnight(t, z):
+    """UTC instant (ns) of the first midnight of zone z strictly after t."""
+    off = zone_offset(z) * S
+    return ((t + off) // DAY + 1) * DAY - off
+
+
+def gen_qt_local_midnight(rng):
+    """Traffic on both sides of a LOCAL midnight that falls inside one UTC day: the daily counter
+    must not reset there."""
+    z = rng.choice([None, 14 * 3600, -11 * 3600, 5 * 3600 + 45 * 60])
+    md = rng.choice([1, 2, 3])
+    D = BASES[2] + rng.choice([0, DAY, 3 * DAY])
+    t0 = D + rng.choice([0, 1, 60 * S, rng.randrange(HOUR)])
+    L = next_local_midnight(t0, z)              # inside [D, D + 24h)
+    ops = [{"k": "a", "t": t0}] * (md + rng.randint(0, 1))
+    if rng.random() < 0.4:
+        ops.append({"k": "u", "t": L - 1})
+    ops += [{"k": "a", "t": L + rng.choice([0, 1, 60 * S])}] * (md + 1)
+    if rng.random() < 0.5:
+        ops += [{"k": "a", "t": D + DAY + rng.choice([0, 1])}] * (md + 1)
+    return with_zone(rng, {"mh": rng.choice([0, 0, 9]), "md": md, "t0": t0, "ops": ops}, z)
+
+
 def midnight_times(rng):
     """Token idle over a UTC midnight, first query of the new day at hour H >= 1, and traffic on
     the following day before and after H:00 (the daily counter must reset at 00:00 UTC, not at
@@ -273,8 +316,15 @@ def gen_qt_midnight(rng):
 
 
 def gen_qt(rng, i):
-    if rng.random() < 0.2:
-        return gen_qt_midnight(rng)
+    r0 = rng.random()
+    if r0 < 0.15:
+        return with_zone(rng, gen_qt_midnight(rng))
+    if r0 < 0.3:
+        return gen_qt_local_midnight(rng)
+    return with_zone(rng, gen_qt_plain(rng, i))
+
+
+def gen_qt_plain(rng, i):
     mh = rng.choice([1, 2, 2, 3, 0, 4])
     md = rng.choice([0, 0, 2, 3, 5, 6])
     base = rng.choice(BASES[1:3])
@@ -293,8 +343,9 @@ def gen_qt(rng, i):
         if rng.random() < 0.6:
             nxt_h = (t // HOUR + 1) * HOUR
             nxt_d = (t // DAY + 1) * DAY
+            nxt_l = next_local_midnight(t, rng.choice(ZONES))
             t = rng.choice([t, t + 1, t + rng.randrange(1, HOUR), nxt_h - 1, nxt_h, nxt_h, nxt_h + 1, nxt_d - 1, nxt_d, nxt_d + 1,
-                            t + HOUR, t + DAY, t + 2 * HOUR + 5])
+                            nxt_l - 1, nxt_l, nxt_l + 1, t + HOUR, t + DAY, t + 2 * HOUR + 5])
         if unsorted and rng.random() < 0.2:
             t -= rng.choice([1, HOUR, DAY])
     return {"mh": mh, "md": md, "t0": t0, "ops": ops}
@@ -326,9 +377,35 @@ def gen_mgr_midnight(rng):
     return {"def": {"min": 0, "hr": 0, "qh": rng.choice([0, 0, 9]), "qd": md}, "items": items}
 
 
+def gen_mgr_local_midnight(rng):
+    z = rng.choice([None, 14 * 3600, -11 * 3600, 5 * 3600 + 45 * 60])
+    md = rng.choice([1, 2, 3])
+    D = BASES[2] + rng.choice([0, DAY])
+    t0 = D + rng.choice([0, 1, rng.randrange(HOUR)])
+    L = next_local_midnight(t0, z)
+    items, rid = [], [0]
+
+    def reqs(n, t):
+        for _ in range(n):
+            rid[0] += 1
+            items.extend([{"k": "rate", "tok": 1, "rid": rid[0], "t": t}, {"k": "quota", "tok": 1, "rid": rid[0], "t": t}])
+    if rng.random() < 0.3:
+        items.append({"k": "usage", "tok": 1, "t": t0})      # GetTokenUsage before any tracker exists
+    reqs(md + rng.randint(0, 1), t0)
+    reqs(md + 1, L + rng.choice([0, 1, 60 * S]))
+    return with_zone(rng, {"def": {"min": 0, "hr": 0, "qh": rng.choice([0, 0, 9]), "qd": md}, "items": items}, z)
+
+
 def gen_mgr(rng, i, prm):
-    if rng.random() < 0.08:
-        return gen_mgr_midnight(rng)
+    r0 = rng.random()
+    if r0 < 0.07:
+        return with_zone(rng, gen_mgr_midnight(rng))
+    if r0 < 0.14:
+        return gen_mgr_local_midnight(rng)
+    return with_zone(rng, gen_mgr_plain(rng, i, prm))
+
+
+def gen_mgr_plain(rng, i, prm):
     dm, nm = geom(prm["minute_w"], prm["minute_n"])
     dh, nh = geom(prm["hour_w"], prm["hour_n"])
     allow_zero = rng.random() < 0.25
@@ -388,7 +465,8 @@ def gen_mgr(rng, i, prm):
         if rng.random() < 0.5:
             nxt_h = (t // HOUR + 1) * HOUR
             nxt_d = (t // DAY + 1) * DAY
-            t = rng.choice([t + x for x in steps_for(rng, dm, nm)] + [t + dh, t + nh * dh, t + nh * dh - 1, nxt_h, nxt_h, nxt_h - 1, nxt_h + 1, nxt_d, nxt_d + 1])
+            nxt_l = next_local_midnight(t, rng.choice(ZONES))
+            t = rng.choice([t + x for x in steps_for(rng, dm, nm)] + [t + dh, t + nh * dh, t + nh * dh - 1, nxt_h, nxt_h, nxt_h - 1, nxt_h + 1, nxt_d, nxt_d + 1, nxt_l, nxt_l + 1])
         if unsorted and rng.random() < 0.2:
             t -= rng.choice([1, dm, 61 * S])
         if (not unsorted) and rng.random() < 0.04:
@@ -418,6 +496,11 @@ def witness_cases(prm):
           {"mh": 0, "md": 3, "t0": BASES[2] + 10 * HOUR,
            "ops": [{"k": "a", "t": BASES[2] + DAY + 3 * HOUR + HOUR // 2}] + [{"k": "a", "t": BASES[2] + 2 * DAY + HOUR // 6}] * 2 +
                   [{"k": "a", "t": BASES[2] + 2 * DAY + 3 * HOUR + HOUR // 12}] * 4, "witness": "utc-day-boundary"},
+          # a local midnight (time.Local = UTC-11: 11:00 UTC; UTC+14: 10:00 UTC) inside one UTC day
+          {"mh": 0, "md": 2, "t0": BASES[2] + HOUR,
+           "ops": [{"k": "a", "t": BASES[2] + HOUR}] * 3 + [{"k": "a", "t": BASES[2] + 11 * HOUR + 1}] * 3, "witness": "local-midnight"},
+          {"mh": 0, "md": 2, "t0": BASES[2] + HOUR, "zone": 14 * 3600,
+           "ops": [{"k": "a", "t": BASES[2] + HOUR}] * 3 + [{"k": "a", "t": BASES[2] + 10 * HOUR}] * 3, "witness": "local-midnight"},
           {"mh": 0, "md": 2, "t0": BASES[2] + 1,
            "ops": [{"k": "a", "t": BASES[2] + 1}, {"k": "a", "t": BASES[2] + DAY}] + [{"k": "a", "t": BASES[2] + DAY + 1}] * 3, "witness": SIG_BOUNDARY}]
 
@@ -493,8 +576,13 @@ def first_cases(f):
 def project(mc):
     """One single-token history per token of a manager case."""
     toks = sorted({it["tok"] for it in mc["items"]})
-    return [{"def": mc["def"], "tok": tk, "items": [it for it in mc["items"] if it["tok"] == tk],
-             "witness": mc.get("witness")} for tk in toks]
+    out = []
+    for tk in toks:
+        c = {"def": mc["def"], "tok": tk, "items": [it for it in mc["items"] if it["tok"] == tk], "witness": mc.get("witness")}
+        if "zone" in mc:
+            c["zone"] = mc["zone"]
+        out.append(c)
+    return out
 
 
 # ---------------------------------------------------------------------------------------
@@ -735,6 +823,7 @@ def run(res, tier, seed):
         "api.executeQuery's composition (CheckRateLimit, return on rejection, CheckQuota) is re-composed by the harness; its order is re-extracted from internal/api/query.go each run (Params_Govern.handler_checks, C28_call_sites)",
         "tokens are independent map entries: multi-token histories are compared per token against the single-token model",
         "get-or-create of a token's counter is modelled as its two critical sections (C28_first_requests_share_counter / C28_no_recheck_refuted); that the Go helpers re-check under the write lock is checked textually each run (Params_Govern.get_or_create_recheck, C28_get_or_create_rechecks) and exercised by concurrent first-request trials on fresh tokens (a race: detection is probabilistic, numbers in histogram.concurrent_first_request_trials)",
+        "the controlled clock returns the model's UTC-integer instants as time.Time values carrying a non-UTC location (time.Local = UTC-11 set by the harness, or fixed zones UTC, +14h, -11h, +5:45 per case); real zone databases / DST transitions are not exercised",
         "Go int / time.Duration overflow not modelled (times < year 2262, counters unbounded Z); RetryAfterSec's value, MaxRows/MaxDuration and the SQLite policy store are not modelled",
     ]
 
@@ -785,7 +874,8 @@ def run(res, tier, seed):
                        "the quota tracker and the Manager (1-2 tokens, interleaved rate/quota calls of different requests, policy "
                        "create/update/delete, usage reads, concurrent bursts), steps drawn around slot / window / hour / UTC-day edges; "
                        "non-trivial = at least `limit` arrivals within two windows (periods) of some limiter or quota in force; "
-                       "distinct by the full input; ~5% of the sequences have a clock that jumps backwards (agreement only)")
+                       "distinct by the full input; ~5% of the sequences have a clock that jumps backwards (agreement only); the clock hands the code "
+                       "times located in time.Local (set to UTC-11), UTC, UTC+14, UTC-11 or UTC+5:45, with traffic on both sides of UTC and local midnights")
     res.cov["model_vs_impl_disagreements"] = len(disagree)
     res.cov["oracle_failures"] = len(gfail)
     res.cov["strict_oracle_failures_by_signature"] = {k: len(v) for k, v in sigs.items()}
@@ -799,6 +889,8 @@ def run(res, tier, seed):
         "counter_decisions": {"admitted": sum(1 for c in sw for o, v in zip(c["ops"], c["obs"]) if o["k"] == "a" and v == 1),
                               "rejected": sum(1 for c in sw for o, v in zip(c["ops"], c["obs"]) if o["k"] == "a" and v == 0)},
         "tracker_codes": {str(k): sum(1 for c in qt for o in c["obs"] if o[0] == k) for k in (0, 1, 2)},
+        "clock_location": {str(z): sum(1 for cs_ in (sw, qt, mgr) for c in cs_ if c.get("zone", "local(UTC-11)") == z)
+                           for z in ("local(UTC-11)", 0, 14 * 3600, -11 * 3600, 5 * 3600 + 45 * 60)},
         "manager_items": {k: cnt_items(lambda it, k=k: it["k"] == k) for k in ("rate", "quota", "set", "del", "usage", "burst")},
         "concurrent_first_request_trials": [{k: f[k] for k in ("trials", "g", "lim", "procs", "max_ra", "max_qa", "min_ra", "min_qa", "exceed")} for f in first],
         "manager_rate": {"allowed": cnt_items(lambda it: it["k"] == "rate" and it["o"] == [1, 1]),
